@@ -29,6 +29,7 @@ var (
 	Variant  = flag.String("variant", "", "build variant tag (set by run.sh)")
 	Part     = flag.String("part", "", "write a partial result to this file instead of the evidence (multi-build checks)")
 	MergeIn  = flag.String("merge", "", "comma-separated partial result files to merge into the evidence")
+	RacePass = flag.String("racepass", "", "directory with the output of the free-running -race pass (result.json, race.* logs)")
 )
 
 var Start = time.Now()
@@ -123,7 +124,53 @@ func loadKnown(root string) []known {
 
 // Report handles the violations of one run: known findings are printed as such,
 // everything else gets a replay file and a VIOLATION line. Returns the exit code.
+// racePass reads the result of the free-running -race pass, if one was made.
+func racePass() (info map[string]any, races []string) {
+	if *RacePass == "" {
+		return nil, nil
+	}
+	info = map[string]any{"ran": false}
+	data, err := os.ReadFile(filepath.Join(*RacePass, "result.json"))
+	if err != nil || json.Unmarshal(data, &info) != nil {
+		info["note"] = "the -race driver did not complete"
+		return info, nil
+	}
+	info["ran"] = true
+	logs, _ := filepath.Glob(filepath.Join(*RacePass, "race.*"))
+	for _, l := range logs {
+		b, _ := os.ReadFile(l)
+		for _, rep := range strings.Split(string(b), "==================") {
+			if strings.Contains(rep, "WARNING: DATA RACE") {
+				races = append(races, strings.TrimSpace(rep))
+			}
+		}
+	}
+	info["data_races_reported"] = len(races)
+	info["note"] = "sampling complement on the uninstrumented packages under go build -race; never the deciding step"
+	return info, races
+}
+
+// raceFingerprint identifies a race report by the functions of its two top frames.
+func raceFingerprint(rep string) string {
+	var fr []string
+	for _, l := range strings.Split(rep, "\n") {
+		l = strings.TrimSpace(l)
+		if strings.HasPrefix(l, "github.com/whoisnian/glb/") && strings.HasSuffix(l, ")") {
+			fr = append(fr, l[:strings.LastIndexByte(l, '(')])
+			if len(fr) == 2 {
+				break
+			}
+		}
+	}
+	return "race|" + strings.Join(fr, "|")
+}
+
 func Report(id string, vs []Violation) (exit int, nNew int) {
+	if _, races := racePass(); len(races) > 0 {
+		for _, r := range races {
+			vs = append(vs, Violation{Scenario: "free-running -race pass", Fingerprint: raceFingerprint(r), Message: id + ": the Go race detector reports a data race on the real packages:\n" + firstLines(r, 30), Witness: map[string]any{"report": r}})
+		}
+	}
 	if *ReplayF != "" {
 		// replay of a recorded violation by re-running the enumeration: reproduced iff the
 		// same fingerprint (failing input / history / class) is reported again
@@ -197,6 +244,12 @@ type Evidence struct {
 }
 
 func WriteEvidence(e *Evidence) {
+	if *ReplayF != "" {
+		return
+	}
+	if info, _ := racePass(); info != nil && e.Coverage != nil {
+		e.Coverage["race_pass"] = info
+	}
 	e.Tier = *Tier
 	e.Seed = Seed()
 	e.WallS = time.Since(Start).Seconds()
